@@ -177,8 +177,8 @@ func run(c *mon.Ctx) {
 	c.Rule("PAT sections built from ground-truth entries by a reference builder (0..253 entries for the payload carrier, 0..42 for packet/stream carriers; network entries, boundary program numbers and PIDs), each decoded through its carrier. distinct non-trivial = distinct (carrier, entry-count class, has network entry, single-program verdict, padding style, packets before the PAT) with at least one entry")
 	c.Assume("pointer_field is 0 (the statement does not vary it for PAT); payload carriers of exactly 188 bytes are avoided because NewPAT documents that it treats a 188-byte slice as a transport packet; program numbers within one table are distinct")
 	c.Floor("concurrent.calls", 5000)
-	c.Stream("concurrent-decoders", c.N(3, 150), func(i int, r *gen.Rand) {
-		c.Concurrent("psi.NewPAT", 8, 250, r, func(q *gen.Rand) string {
+	c.Stream("concurrent-decoders", c.N(8, 200), func(i int, r *gen.Rand) {
+		c.Concurrent("psi.NewPAT", 8, 2000, r, func(q *gen.Rand) string {
 			p := genPAT(q, 30)
 			pay := q.Slack(append([]byte{0}, p.Section()...))
 			if len(pay) == 188 {
@@ -207,8 +207,8 @@ func run(c *mon.Ctx) {
 		})
 		c.Class("concurrent-decoders")
 	})
-	c.Stream("concurrent-classification", c.N(3, 150), func(i int, r *gen.Rand) {
-		c.Concurrent("psi.IsPMT with PATs of their own", 8, 400, r, func(q *gen.Rand) string {
+	c.Stream("concurrent-classification", c.N(8, 200), func(i int, r *gen.Rand) {
+		c.Concurrent("psi.IsPMT with PATs of their own", 8, 3200, r, func(q *gen.Rand) string {
 			p := genPAT(q, 12)
 			pat, err := psi.NewPAT(append([]byte{0}, p.Section()...))
 			if err != nil || pat == nil {
@@ -447,6 +447,38 @@ func run(c *mon.Ctx) {
 			c.Count("stream.rechecked_after_later_reads")
 			checkPAT(c, "stream-after-later-reads", pat, nil, &p, tail(in, 600))
 		}
+		// another stream whose PAT has the same transport_stream_id, version and number of entries (another
+		// multiplex of the same operator, a test vector edited by hand) but lists other programs: every read reports
+		// the table of the stream it is given
+		if len(p.Entries) > 0 && r.Chance(3) {
+			q := p
+			q.Entries = nil
+			used := map[uint16]bool{}
+			for _, e := range p.Entries {
+				pn := e.Program
+				if pn != 0 {
+					for pn = uint16(1 + r.Intn(65535)); used[pn]; {
+						pn = uint16(1 + r.Intn(65535))
+					}
+					used[pn] = true
+				}
+				q.Entries = append(q.Entries, ref.PATEntry{Program: pn, PID: (e.PID + 1 + r.Intn(100)) & 0x1fff})
+			}
+			qk := ref.PaddedPacket(0, r.Intn(16), true, append([]byte{0}, q.Section()...))
+			var st3 bytes.Buffer
+			for k := r.Intn(3); k > 0; k-- {
+				o := ref.PaddedPacket(1+r.Intn(8190), r.Intn(16), r.Bool(), r.Bytes(r.Intn(185)))
+				st3.Write(o[:])
+			}
+			st3.Write(qk[:])
+			in3 := append([]byte{}, st3.Bytes()...)
+			// (the first stream is read once more directly before, so that the two reads follow each other)
+			patAgain, errAgain := psi.ReadPAT(bytes.NewReader(in))
+			checkPAT(c, "stream-read-again", patAgain, errAgain, &p, tail(in, 600))
+			pat3, err3 := psi.ReadPAT(bytes.NewReader(in3))
+			c.Count("stream.second_stream_with_the_same_pat_header")
+			checkPAT(c, "stream-with-the-same-header-as-the-previous-one", pat3, err3, &q, tail(in3, 600))
+		}
 	})
 	// nil PAT is an error
 	var pk packet.Packet
@@ -454,6 +486,7 @@ func run(c *mon.Ctx) {
 		c.Fail("IsPMT:nil-pat", fmt.Sprintf("IsPMT(pkt, nil) = %v, %v; want false and the nil-PAT error", g, err), nil)
 	}
 	c.Floor("stream.without_pat", 100)
+	c.Floor("stream.second_stream_with_the_same_pat_header", 300)
 	c.Floor("stream.pat_behind_megabytes", 5)
 }
 
